@@ -383,20 +383,20 @@ META = {
  ),
  'C14': dict(
    level_text='Bounded model checking of the real EnhancedDevice (send/startArbitration/requestEnhancedInfo/recv/handleEnhancedBufferedData): exact two-byte encoding for all symbols; every well-formed unit decodes to the symbol and won/lost result the enhanced protocol assigns from every arbitration state; every stream of L arbitrary bytes decodes to the same symbols, results and diagnostics for every split into two chunks.',
-   level_note='Trusted: clang-14 lowering, ll2c, models (string, sstream for diagnostic texts), CBMC. Environment: in-memory transport handing out what is buffered; time() constant per execution. Outside: plain-device FileTransport buffering (::read/ppoll), splits into more than two chunks, streams longer than L, info response texts.',
-   outside_claim='FileTransport read buffering and overflow handling, more than two chunks, streams longer than the bound, info text formatting',
+   level_note='Trusted: clang-14 lowering, ll2c, models (string, sstream for diagnostic texts), CBMC. Environment: in-memory transport handing out what is buffered; time() constant per execution. Also decided: PlainDevice::recv on 1..3 buffered bytes from every arbitration state, and FileTransport read/peek/consume as an inductive step over every buffer state (0..32 bytes) x every ppoll/read outcome (bytes handed out unchanged and in order; a reported overflow discards exactly the buffered bytes). Outside: splits into more than two chunks, streams longer than L, info response texts.',
+   outside_claim='more than two chunks, streams longer than the bound, info text formatting, NetworkTransport/SerialTransport device setup',
    assumptions=COMMON_ASSUME,
  ),
  'C05': dict(
-   level_text='Bounded model checking of the real numeric decode kernels: for every byte pattern of every checked built-in type (all 1..4 byte integer, fixed-point, BCD/HCD, weekday and bit types incl. big-endian variants) the raw decode equals an independent reference (endianness, digit validity, bit range), the replacement pattern decodes to null, out-of-range raws are rejected, and the numeric value equals sign/divisor semantics of the type definition.',
-   level_note='Raw-level kernels only: readRawValue / getFloatFromRawValue / writeRawValue of the real NumberDataType per built-in numeric, BCD/HCD, weekday and bit type. Trusted: clang-14 lowering, ll2c, CBMC float encoding. Outside: text rendering and parsing through iostreams (readSymbols/writeSymbols text), date/time/string types, EXP/KNX floats, value lists, DataFieldSet layout across several fields.',
-   outside_claim='text output/input formats, date/time/string/hex types, EXP/KNX float types, value lists, multi-field layout, float exactness for |raw| >= 2^24',
+   level_text='Bounded model checking of the real decode kernels. Numeric: for every byte pattern of every checked built-in type (all 1..4 byte integer, fixed-point, BCD/HCD, weekday and bit types incl. big-endian variants) the raw decode (readRawValue / getFloatFromRawValue) equals an independent reference (endianness, digit validity, bit range), the replacement pattern decodes to null, out-of-range raws are rejected, and the numeric value equals sign/divisor semantics of the type definition. Date/time: the real DateTimeDataType::readSymbols (text rendered through the stream model) for BDA, BDA:3, BDZ, HDA, HDA:3, BTI, HTI, VTI, BTM, HTM, VTM (quick: 5 of them) on every byte pattern without replacement bytes against an independent decode (digit validity, day/month/hour/minute ranges, 24:00 rule, component order); DAY: every day count in the checked ranges (thorough: all 65536) against the civil calendar (known finding KF-C05-DAY1900 for counts 0..58).',
+   level_note='Trusted: clang-14 lowering, ll2c, CBMC float encoding, models/sstream.c for the date/time texts. Numeric text rendering (digits of numbers through iostreams) is outside: numeric claims are at raw-value level. Outside as well: string/hex types (their text is covered for stream-state independence only, C12), EXP/KNX floats, MIN/TTM/TTH/TTQ time types, DTM, value lists, JSON output of numeric types, partial-null dates, DataFieldSet layout across several fields.',
+   outside_claim='numeric text output formats, string/hex type decoding, EXP/KNX float types, MIN/TTx/DTM types, value lists, multi-field layout, float exactness for |raw| >= 2^24',
    assumptions=COMMON_ASSUME,
  ),
  'C06': dict(
-   level_text='Bounded model checking of encode-inverts-decode at the raw level: for every decodable byte pattern of every checked type, writeRawValue(readRawValue(bytes)) reproduces the bits the field owns (canonical replacement for null) and succeeds.',
-   level_note='Raw-level kernels only: readRawValue / getFloatFromRawValue / writeRawValue of the real NumberDataType per built-in numeric, BCD/HCD, weekday and bit type. Trusted: clang-14 lowering, ll2c, CBMC float encoding. Outside: text rendering and parsing through iostreams (readSymbols/writeSymbols text), date/time/string types, EXP/KNX floats, value lists, DataFieldSet layout across several fields.',
-   outside_claim='text output/input formats, date/time/string/hex types, EXP/KNX float types, value lists, multi-field layout, float exactness for |raw| >= 2^24',
+   level_text='Bounded model checking of encode-inverts-decode. Raw level: for every decodable byte pattern of every checked numeric/BCD/HCD/bit/weekday type, writeRawValue(readRawValue(bytes)) reproduces the bits the field owns (canonical replacement for null) and succeeds. Value level: for every in-range raw value of every integer type and every type with a decimal or negative divisor, the text ebusd prints for it (sv, sv*|div|, or sv/10^k with exactly k digits) is accepted by the real NumberDataType::parseInput and yields the same raw value (strtol/strtoul/strtod modelled by their contract on that text).',
+   level_note='Trusted: clang-14 lowering, ll2c, CBMC float encoding, the libc contract stubs of C07_parse.cpp. Outside: digit rendering itself (num_put), divisors that are not powers of ten at value level (D2B/D2C/D1C are covered at raw level only), date/time/string/hex types, value lists, the converse direction (encode-decode-encode fixed point from arbitrary user texts), EXP/KNX floats.',
+   outside_claim='date/time/string/hex types, value lists, non-decimal divisors at text level, encode-decode-encode from arbitrary texts, EXP/KNX float types',
    assumptions=COMMON_ASSUME,
  ),
  'C10': dict(
@@ -417,8 +417,9 @@ META = {
    outside_claim='numeric types on a used stream, derive() order independence, definition load order, value lists, errno clause of date/string writes',
    assumptions=COMMON_ASSUME,
  ),
+ 'C19': dict(claimed=False, na_reason='the statement is about dump -> reload -> dump of whole definition sets (Message::create, DataField::create, MappedFileReader, Message::dump: > 1500 lines over std::map<string,string>, getline and iostreams); no bounded encoding of it is within reach of this pipeline (DESIGN 4/C19, 8.5). The CSV line splitter kernel (FileReader::splitFields) sits on the same getline/std::string code as C18 and gives no verdict even for 2-character lines (re-measured after the translator fix, DESIGN 15).', level_text='n/a', level_note='n/a', outside_claim='n/a', assumptions=COMMON_ASSUME),
  'C18': dict(
-   claimed=False, na_reason='harness C18_request.cpp exists; symbolic token lengths in std::string/getline code exceed the solver cap even at length 2; not claimed until a profile passes',
+   claimed=False, na_reason='harness C18_request.cpp (real RequestImpl::split / add against a reference tokenizer and percent decoder) translates, but symbolic token lengths inside getline/std::string code give no verdict: re-measured after the translator fix of DESIGN 10.1 -- split2..4 need 4-7 GB and reach no verdict in 250 s, http3/4 time out. executeGet root containment and StringReplacer were not attempted. Not claimed.',
    level_text='Bounded model checking of the real RequestImpl::split and RequestImpl::add: for every command line / URI of the stated lengths over the stated alphabets the result equals a reference tokenizer / single-pass percent decoder written from the statement.',
    level_note='Trusted: clang-14 lowering, ll2c, models/string.c, sstream.c (istringstream/getline), libc.c (mini sscanf: any directive other than %1x in the format is reported). Outside: executeGet path containment under the HTML root, MQTT topic template matching (StringReplacer), unterminated quotes, malformed escapes.',
    outside_claim='HTML-root containment in MainLoop::executeGet, MQTT topic round trip, lines/URIs longer than the bound, unterminated quotes, malformed percent escapes',
